@@ -194,6 +194,25 @@ impl RTree {
         }
     }
 
+    /// same format as treeh::TreeOut::ctl_summary
+    fn ctl_summary(&self) -> String {
+        let name = |n: &usize| -> String {
+            match self.dom.elem(*n) {
+                Some((ns, l)) => format!("{}:{l}", if ns == HTML_NS { "h" } else if ns == SVG_NS { "s" } else if ns == MATHML_NS { "m" } else { "?" }),
+                None => "#".into(),
+            }
+        };
+        let stack: Vec<String> = self.open.iter().map(name).collect();
+        let afe: Vec<String> = self.afe.iter().map(|a| match a { Afe::Marker => "|".to_string(), Afe::El(n, _) => name(n) }).collect();
+        let pending: String = self.pending_table_chars.iter().collect();
+        let orig = if matches!(self.mode, Mode::Text | Mode::InTableText) { Some(format!("{:?}", self.orig_mode)) } else { None };
+        let tmpl: Vec<String> = self.template_modes.iter().map(|m| format!("{m:?}")).collect();
+        format!(
+            "mode={:?} orig={:?} tmpl={:?} stack={:?} afe={:?} fok={} head={} form={} pending={:?} skiplf={}",
+            self.mode, orig, tmpl, stack, afe, self.frameset_ok, self.head.is_some(), self.form.is_some(), pending, self.skip_lf
+        )
+    }
+
     fn state_digest(&self, tok: &RTok, trailing_cr: bool) -> u128 {
         let names = |v: &[usize]| -> Vec<String> { v.iter().map(|&n| format!("{:?}#{n}", self.dom.elem(n))).collect() };
         let afe: Vec<String> = self
@@ -1906,7 +1925,7 @@ pub fn parse(cfg: &RCfg, input: &str) -> ROut {
 /// As `parse`, and also a digest of the complete reference state (tree-construction state, DOM, tokenizer
 /// control state) at the point where all of `input` has been consumed and end-of-file is not yet known:
 /// the reference half of the product-state key of the E2 searches.
-pub fn parse_keyed(cfg: &RCfg, input: &str) -> (ROut, u128) {
+pub fn parse_keyed(cfg: &RCfg, input: &str) -> (ROut, u128, String) {
     let mut tree = RTree::new(cfg);
     let cdata = Rc::new(Cell::new(false));
     let mut start = S::Data;
@@ -1941,7 +1960,7 @@ pub fn parse_keyed(cfg: &RCfg, input: &str) -> (ROut, u128) {
     let mut tok = RTok::new(rc);
     tok.input = rtok::normalize(s);
     tok.eof = false;
-    let mut key: Option<u128> = None;
+    let mut key: Option<(u128, String)> = None;
     let mut seen = 0usize;
     // (fragment case: no start tag token has been emitted, so no end tag is "appropriate")
     let update_cdata = |tree: &RTree, cdata: &Rc<Cell<bool>>| {
@@ -1972,10 +1991,10 @@ pub fn parse_keyed(cfg: &RCfg, input: &str) -> (ROut, u128) {
             update_cdata(&tree, &cdata);
         }
         if tok.suspended && !tok.eof {
-            key = Some(tree.state_digest(&tok, s.ends_with('\r')));
+            key = Some((tree.state_digest(&tok, s.ends_with('\r')), tree.ctl_summary()));
             tok.eof = true;
         }
     }
-    let key = key.unwrap_or_else(|| tree.state_digest(&tok, false));
-    (ROut { dom: tree.dom, quirks: tree.quirks }, key)
+    let (key, summary) = key.unwrap_or_else(|| (tree.state_digest(&tok, false), String::new()));
+    (ROut { dom: tree.dom, quirks: tree.quirks }, key, summary)
 }
